@@ -82,6 +82,9 @@ def make_spec(rng, keycols, nrow, extra=None):
         dt, vals = G.gen_column(rng, n)
         cols.append({"name": f"N{kj + 1}", "dtype": dt, "values": vals})
     body = {"group_by": [f"N{j}" for j in range(len(keycols))]}
+    if rng.random() < 0.5:
+        # the hierarchy is given by the ORDER OF group_by, not by where the columns sit in the frame
+        rng.shuffle(cols)
     spec = {"kind": "table", "df": {"cols": cols}, "body": body, "page": {"nrow": nrow},
             "colheader": rng.choice(["none", "none", "default"]), "title": None}
     if extra:
